@@ -97,7 +97,7 @@ impl Prop for C18 {
         "C18"
     }
     fn rule(&self) -> String {
-        "enumerated: every digraph incl. self loops on 1..4 vertices (2+16+512+65536 graphs; thorough adds all 2^20 loop-free digraphs on 5 vertices); generated: random multigraphs n<=60 (parallel edges, self loops, isolated vertices), cycles-of-cycles, and long chains with back edges (quick 2000, thorough 50000 vertices). non-trivial = at least 2 components of size >= 2, or a component of size >= 3 whose edges are not all bidirected (asymmetric cycle)".to_string()
+        "enumerated: every digraph incl. self loops on 1..4 vertices (2+16+512+65536 graphs; thorough adds all 2^20 loop-free digraphs on 5 vertices); generated: random multigraphs n<=60 (parallel edges, self loops, isolated vertices), cycles-of-cycles, and long chains with back edges (quick 9000, thorough 50000 vertices). non-trivial = at least 2 components of size >= 2, or a component of size >= 3 whose edges are not all bidirected (asymmetric cycle)".to_string()
     }
     fn cases(&self, tier: Tier) -> u32 {
         tier.pick(20_000, 400_000)
@@ -159,7 +159,7 @@ impl Prop for C18 {
                 }
                 C18Case { n, edges }
             });
-        let max_chain = tier.pick(2_000usize, 50_000usize);
+        let max_chain = tier.pick(9_000usize, 50_000usize);
         let chain = (2usize..=max_chain, proptest::collection::vec((any::<u16>(), any::<u16>()), 0..4))
             .prop_map(|(n, back)| {
                 let mut edges: Vec<(usize, usize)> = (0..n - 1).map(|i| (i, i + 1)).collect();
